@@ -761,9 +761,24 @@ func c09Coq(c *c09Case) string {
 			gl = append(gl, c09CoqN(c09U(g)))
 		}
 	}
-	return fmt.Sprintf("mkcase (mkcfg %d %d %d %d %d) %s [%s] %d %d %d [%s] %s %s %s %s [%s] [%s] (%d, %d, %d)",
-		c09U(c.DialMs), c09U(c.WriteMs), c09U(c.ReadMs), c.QueueLen, objMax, conn, strings.Join(acts, "; "),
-		c.Callers, c.Calls, c09U(c.eff()), strings.Join(gl, "; "), coqBool(c.OneWay), coqBool(c.Prime && c.Callers > 1), pred, held, strings.Join(obs, "; "), strings.Join(evs, "; "),
+	idle := 60000
+	if c.IdleMs > 0 {
+		idle = c09U(c.IdleMs)
+	}
+	// the number of connections the peer accepted is definite where idle periods are the only reason to dial again
+	nconn := "None"
+	if c.Predict && c.IdleMs > 0 && c.Callers == 1 && (c.Conn == "accept" || c.Conn == "tls") {
+		acc := 0
+		for _, e := range o.Events {
+			if e.Kind == "accept" {
+				acc++
+			}
+		}
+		nconn = fmt.Sprintf("(Some %d)", acc)
+	}
+	return fmt.Sprintf("mkcase (mkcfg %d %d %d %d %d %d) %s [%s] %d %d %d [%s] %s %s %s %s %s [%s] [%s] (%d, %d, %d)",
+		c09U(c.DialMs), c09U(c.WriteMs), c09U(c.ReadMs), c.QueueLen, objMax, idle, conn, strings.Join(acts, "; "),
+		c.Callers, c.Calls, c09U(c.eff()), strings.Join(gl, "; "), coqBool(c.OneWay), coqBool(c.Prime && c.Callers > 1), pred, nconn, held, strings.Join(obs, "; "), strings.Join(evs, "; "),
 		c09NN(o.QueueLen), c09NN(o.InvokeNum), len(o.Pending))
 }
 
@@ -1006,7 +1021,9 @@ func c09Gen(tier string, rng *rand.Rand) []c09Case {
 		cs = append(cs, c)
 		// ---- idle periods: the sender goroutine checks the idle timeout once per second and closes the connection; the next
 		// call dials again and must return by its deadline all the same (idle timeouts around the one-second tick)
-		for _, idle := range []int{pick(300, 700), pick(900, 1000, 1100), pick(1200, 1500, 1900)} {
+		// (an idle timeout that is an exact multiple of the one-second tick is closed at that tick or the next depending on
+		// the ticker's jitter: such values are left to the monitors-only scenario below)
+		for _, idle := range []int{pick(300, 700), pick(900, 1100), pick(1200, 1500, 1900)} {
 			c = base("idle-then-call", "accept", rep(pick(0, 20)))
 			c.IdleMs = idle
 			c.Calls = 3
@@ -1024,7 +1041,7 @@ func c09Gen(tier string, rng *rand.Rand) []c09Case {
 		c.Predict = false // the callers' second calls start at their own pace: monitors and trace validation only
 		cs = append(cs, c)
 		c = base("idle-then-call-tls", "tls", rep(0))
-		c.IdleMs = pick(500, 1100)
+		c.IdleMs = pick(500, 900, 1100)
 		c.Calls = 2
 		c.Gaps = []int{c.IdleMs + 1150}
 		cs = append(cs, c)
